@@ -98,7 +98,8 @@ def check(run: Run, prog: Program, model: Model, tier: str) -> None:
         "sre shape it receives: the sub-pattern component must flow into the recursive generator, a repeat must join "
         "`count` copies with count drawn between its bounds (open-ended: max(cap, min)). Category alphabets are "
         "constant-folded and every character is tested against the category with the real `re` on the constant. "
-        "That the composed string fully matches is not decided.")
+        "That the composed string fully matches is not decided."
+        " The opcode and category dispatchers are evaluated on every constant of the sre universe; a negated class excludes every alphabet letter of each range and its candidate set depends on every member.")
     run.rule_text = ("one obligation per opcode / category of the universe, per handler child flow, per alphabet, per draw; "
                      "non-trivial = needed abstract evaluation of a handler or constant folding")
     run.trusted += ["sre parse-tree node shapes: SUBPATTERN(group, add, del, p), BRANCH(None, [p..]), MAX/MIN_REPEAT(min, max, p), "
